@@ -193,6 +193,17 @@ Print Assumptions C09_force_ro.
 Print Assumptions C09_open_meets_spec.
 Print Assumptions C09_ro_unchecked_unlink_refuted.
 
+
+(** the header check used by the model and all gate theorems is the function regenerated from
+    backend/hdf5/FileHDF5.cpp on every run *)
+Require NixV.FileIO.HeaderBridge NixV.Gen.GenFile.
+Theorem C09_checkHeader_is_generated : forall h m throw_error,
+  NixV.FileIO.Version.checkHeader h m throw_error =
+  NixV.Gen.GenFile.checkHeader (NixV.FileIO.HeaderBridge.mode_of m) throw_error (NixV.FileIO.HeaderBridge.attrs_of h)
+    NixV.FileIO.Version.my_version NixV.FileIO.Version.my_version.
+Proof. exact NixV.FileIO.HeaderBridge.checkHeader_is_generated. Qed.
+Print Assumptions C09_checkHeader_is_generated.
+
 (** non-vacuity on the instance the scripts run (small tree, named mutators of the public API): a read-only
     session on a library-produced file opens; a checked mutator fails in it; an unlink-only mutator fails
     exactly when the unlink is checked; Overwrite empties; a header without format is refused. *)
